@@ -74,8 +74,8 @@ func c09Variants(rng *rand.Rand, cur []byte, donor []byte) map[string][]byte {
 func init() {
 	var nSeeds int
 	mon.Register(&mon.Check{
-		ID: "C09",
-		Rule: "evaluations = Lint*Ex calls; for every certificate whose issuer DN bytes differ from its subject DN bytes the signature BIT STRING contents are replaced (unused-bits octet kept, same length) by random bits, all-zero, all-ones, one flipped bit, another certificate's signature cut/padded and a DER SEQUENCE{r,s} of the same length; every variant must give the original's status and details for every lint. Plus the pre-issuance scenario: one generated TBSCertificate really signed by two different keys. distinct_nontrivial (de-duplicated by a hash of the DER bytes within each worker process) = distinct non-self-issued certificates compared.",
+		ID:          "C09",
+		Rule:        "evaluations = Lint*Ex calls; for every certificate whose issuer DN bytes differ from its subject DN bytes the signature BIT STRING contents are replaced (unused-bits octet kept, same length) by random bits, all-zero, all-ones, one flipped bit, another certificate's signature cut/padded and a DER SEQUENCE{r,s} of the same length; every variant must give the original's status and details for every lint. Plus the pre-issuance scenario: one generated TBSCertificate really signed by two different keys. distinct_nontrivial (de-duplicated by a hash of the DER bytes within each worker process) = distinct non-self-issued certificates compared.",
 		Assumptions: []string{"self-issued certificates are excluded, as the property states", "variants the parser rejects are counted and skipped"},
 		Setup: func(c *mon.Ctx) error {
 			if err := setupCommon(c); err != nil {
